@@ -17,14 +17,25 @@ func init() {
 		NonTrivial: func(o *Outcome) bool {
 			return o.Hist.Probes["hit-served"] > 0 && o.Hist.Probes["refetch-after-expiry"] > 0
 		},
-		Rule:         "seeded plans on 1-2 keys: lifetimes 1-6s (and one large), upstream Age absent or valid, 2-4 refetch epochs, requests placed by sleep operations at expiry-1s, the expiry second +-50ms, expiry+1s; half of the runs strictly sequential with the clock moving only between requests (exact oracle), half concurrent with clock actions inside requests (interval oracle). non-trivial = at least one hit and one refetch after expiry; distinct = distinct history hash",
+		Rule:         "seeded plans on 1-2 keys: lifetimes 1-6s (and one large), upstream Age absent or valid, 2-4 refetch epochs, requests placed by sleep operations at expiry-1s, the expiry second +-50ms, expiry+1s; half of the runs strictly sequential with the clock moving only between requests (exact oracle), half concurrent with clock actions inside requests (interval oracle); some refetch epochs are uncacheable or fail; a third of the runs have a slow simulated store that keeps the entry lock held while the clock moves. non-trivial = at least one hit and one refetch after expiry; distinct = distinct history hash",
 		ExpectProbes: []string{"hit-served", "refetch-after-expiry", "hit-in-expiry-second", "request-in-second-after-expiry", "age-checked"},
 	})
 }
 
 func genC04(g *Gen) *Plan {
 	p := &Plan{Profile: "C04", Seed: g.Seed, Policy: g.policy(), MaxSteps: 1500}
-	p.Configs = []Config{baseConfig(1000, "1s", "")}
+	store := ""
+	if g.p(0.3) {
+		// a slow store keeps the entry lock held (saveToStore runs under it) while the clock moves
+		store = storeURL
+		p.StoreFaults = make([]string, 120)
+		for i := range p.StoreFaults {
+			if g.p(0.4) {
+				p.StoreFaults[i] = pick(g, "delay:2", "delay:4", "delay:6")
+			}
+		}
+	}
+	p.Configs = []Config{baseConfig(1000, "1s", store)}
 	seq := g.p(0.5)
 	if seq {
 		p.Sequential = true
@@ -59,6 +70,13 @@ func genC04(g *Gen) *Plan {
 				eff = T - age
 			}
 			lifes[k] = append(lifes[k], eff)
+			if i > 0 && g.p(0.15) {
+				// an epoch whose refetch is not cacheable (or fails): nothing older may resurface
+				r = uncacheable(g, g.n(10, 200))
+				if g.p(0.3) {
+					r.Fault = "err"
+				}
+			}
 			s = append(s, r)
 		}
 		p.Scripts["GET "+hostA+" "+k] = s
@@ -192,7 +210,11 @@ func oracleC04(o *Outcome) []Violation {
 					"client op %d %s: Age %d but the response (reply #%d) was obtained between t=%dms and t=%dms and the hit was served between t=%dms and t=%dms (possible ages %d..%d)",
 					r.Op, r.Key, age, u.Serial, u.ReplyT, f.ReturnT, r.InvokeT, r.ReturnT, lo, hi))
 			}
-			if exact && int64(age) > T {
+			// a coalesced request is answered at the moment the fetcher hands the response over;
+			// it may resume (and stamp its Age) arbitrarily later - C01 requires it to be answered
+			// from that fetch nevertheless. For a hit found by the request's own lookup the Age is
+			// taken in the same atomic step as the lookup and must respect the lifetime.
+			if int64(age) > T && (exact || r.ReleasedBy == -1) {
 				out = append(out, violation("C04", "age-exceeds-lifetime", "Age header exceeds the lifetime", "client op %d %s: Age %d > lifetime %d", r.Op, r.Key, age, T))
 			}
 		}
